@@ -88,6 +88,24 @@ CHECKS = {
              "(remove_from_inventory) is trusted to touch only this connection; schedules are not modelled. 'Repeated "
              "delivery has no effect' is the known-id path.",
         technique=PROOF_TECH + "; path contracts over ghost state (committed blocks, relayed sequence)"),
+    'C06': dict(
+        category='proof', design_ref='6/C06',
+        text="Proved as lemmas over contracts that are themselves verified in the same run (validate_block_in_coinstate, "
+             "construct_pow_evidence*, the codecs): (a) two blocks that pass full validation on the same chain state and "
+             "have the same header have the same ENCODING - the header's evidence equals the recomputation, whose block_hash "
+             "is blake2(summary_hash + chain_sample + serialize_list(transactions)), and serialize_list is the list codec's "
+             "bytes, the tail of the block's encoding - so no alteration confined to the transaction part of an accepted "
+             "block is accepted; with C07 RT2 (different accepted bytes decode to different values) any accepted alteration "
+             "must change the header; (b) same id implies same header; (c) every field of every consensus class is written "
+             "by its stream_serialize (scan of the real classes). Bounded (not proof): for every generated fully valid block "
+             "(one with signed spends), EVERY single-bit flip and EVERY truncation of its encoding is decoded by the real "
+             "decoder and offered to the real CoinState.add_block on the same parent: never accepted.",
+        note="Assumed (as explicit hypotheses of the lemmas, on exactly the terms involved): blake2 and sha256d are "
+             "injective (collision resistance, A-HASH); the header encoding is injective (follows from encode-then-decode, "
+             "which C07 only exercises). That a changed header does not happen to satisfy the proof-of-work relations is "
+             "not a first-order fact: it is what the bounded sweep exercises (scrypt replaced by sha256 and checkpoint "
+             "horizon disabled in the sweeping process only).",
+        technique=PROOF_TECH + "; lemmas over validator and codec contracts + bounded exhaustive-per-block bit-flip/truncation sweep"),
     'C07': dict(
         category='proof', design_ref='6/C07',
         text="Proved from source for the eight consensus classes (OutputReference, Input, Output, Transaction, PowEvidence, "
